@@ -72,77 +72,97 @@ def check_stats(sim, flog, cfg, res, case, mode):
 
 
 def run_prog(case, res):
+    """each mode runs twice: without and with the instruction cache (same data cache, if any).  What the I-cache
+    must not change is judged against the run WITHOUT I-cache, so a defect elsewhere is not blamed on it."""
     from architecture_simulator.simulation.runtime_errors import InstructionExecutionException
 
     prog = {4 * i: d for i, d in enumerate(case["prog"])}
     cfg = case["icache"]
-    seq = SeqRef(prog, case["regs"], case["mem"])
-    seq.keep_trace = False
-    sr = seq.run(case["max_instr"])
     nt = False
     for mode in ("single", "five"):
-        if mode == "five":
-            ref = TimedRef(prog, case["regs"], case["mem"], interlock=True)
-            ref.run(case["max_instr"])
-            holder = {}
+        finals = {}
+        for ic in (None, cfg):
+            flog = None
+            if mode == "five":
+                ref = TimedRef(prog, case["regs"], case["mem"], interlock=True)
+                ref.run(case["max_instr"])
+                holder = {}
 
-            def on_sim(sim):
-                installed = dict(sim.state.instruction_memory.instruction_memory.instructions)
-                holder["flog"] = FetchLog(sim, installed, res, case)
+                def on_sim(sim):
+                    installed = dict(sim.state.instruction_memory.instruction_memory.instructions) if ic else {}
+                    if ic:
+                        holder["flog"] = FetchLog(sim, installed, res, case)
 
-            c5 = dict(case, kind="pipe", hz=True)
-            out = pipe.run_five(c5, res, "C11", ref, on_sim=on_sim)
-            if out is None:
-                return
-            sim, flog = out["sim"], holder["flog"]
-            res.count("five_runs")
-            faulted = out["rfault"] is not None
-        else:
-            sim = make_riscv("single", icache=cfg)
-            install_program(sim, case["prog"])
-            set_regs(sim, case["regs"])
-            preload_mem(sim, case["mem"])
-            installed = dict(sim.state.instruction_memory.instruction_memory.instructions)
-            flog = FetchLog(sim, installed, res, case)
-            pm = sim.state.performance_metrics
-            k = 0
-            faulted = False
-            prev_c, prev_m = pm.cycles, 0
-            while not sim.is_done() and k < case["max_instr"]:
-                try:
-                    sim.step()
-                except InstructionExecutionException:
-                    faulted = True
-                    break
-                k += 1
-                st = sim.state.instruction_memory.get_cache_stats()
-                miss = int(st["accesses"]) - int(st["hits"])
-                if miss != prev_m:
-                    res.count("penalty_steps_with_miss")
-                if pm.cycles - prev_c != 1 + cfg["pen"] * (miss - prev_m):
-                    res.violation("C11", "miss-penalty", "single-cycle step %d: cycle counter advanced by %d with %d new fetch misses (penalty %d)" % (k, pm.cycles - prev_c, miss - prev_m, cfg["pen"]), case)
+                c5 = dict(case, kind="pipe", hz=True, icache=ic)
+                out = pipe.run_five(c5, res, "C11", ref, on_sim=on_sim)
+                if out is None:
+                    if ic is not None and pipe.LAST["tag"] in ("C02",):
+                        res.violation("C11", "result-changed", "five-stage: the value/order monitors are silent without I-cache but fire with it", case)
+                    elif ic is not None and pipe.LAST["tag"] == "C07":
+                        res.violation("C11", "miss-penalty", "five-stage: the cycle/penalty monitor is silent without I-cache but fires with it", case)
                     return
-                prev_c, prev_m = pm.cycles, miss
-            res.count("single_runs")
-            if not faulted:
-                st = sim.state.instruction_memory.get_cache_stats()
-                if int(st["accesses"]) != pm.instruction_count or len(flog.log) != pm.instruction_count:
-                    res.violation("C11", "fetch-per-instruction", "single-cycle: %d executed instructions, access counter %s, %d fetches observed" % (pm.instruction_count, st["accesses"], len(flog.log)), case)
+                sim, flog = out["sim"], holder.get("flog")
+                faulted = out["rfault"] is not None
+                if ic:
+                    res.count("five_runs")
+            else:
+                sim = make_riscv("single", dcache=case.get("dcache"), icache=ic)
+                install_program(sim, case["prog"])
+                set_regs(sim, case["regs"])
+                preload_mem(sim, case["mem"])
+                if ic:
+                    installed = dict(sim.state.instruction_memory.instruction_memory.instructions)
+                    flog = FetchLog(sim, installed, res, case)
+                pm = sim.state.performance_metrics
+                k = 0
+                faulted = False
+                pen_d = (case.get("dcache") or {}).get("pen", 0)
+                prev_c, prev_m, prev_dm = pm.cycles, 0, 0
+                while not sim.is_done() and k < case["max_instr"]:
+                    try:
+                        sim.step()
+                    except InstructionExecutionException:
+                        faulted = True
+                        break
+                    except Exception as e:
+                        if ic is None:
+                            return  # crashes without I-cache too: not an I-cache matter
+                        res.violation("C11", "result-changed", "single-cycle step raised %r with the I-cache on, not without it" % (e,), case)
+                        return
+                    k += 1
+                    if ic:
+                        st = sim.state.instruction_memory.get_cache_stats()
+                        miss = int(st["accesses"]) - int(st["hits"])
+                        dst = sim.state.memory.get_cache_stats()
+                        dmiss = (int(dst["accesses"]) - int(dst["hits"])) if dst else 0
+                        if miss != prev_m:
+                            res.count("penalty_steps_with_miss")
+                        if pm.cycles - prev_c != 1 + cfg["pen"] * (miss - prev_m) + pen_d * (dmiss - prev_dm):
+                            res.violation("C11", "miss-penalty", "single-cycle step %d: cycle counter advanced by %d with %d new fetch misses (penalty %d)" % (k, pm.cycles - prev_c, miss - prev_m, cfg["pen"]), case)
+                            return
+                        prev_c, prev_m, prev_dm = pm.cycles, miss, dmiss
+                if ic:
+                    res.count("single_runs")
+                    if not faulted:
+                        st = sim.state.instruction_memory.get_cache_stats()
+                        if int(st["accesses"]) != pm.instruction_count or len(flog.log) != pm.instruction_count:
+                            res.violation("C11", "fetch-per-instruction", "single-cycle: %d executed instructions, access counter %s, %d fetches observed" % (pm.instruction_count, st["accesses"], len(flog.log)), case)
+                            return
+            if ic:
+                if flog.bad:
+                    res.violation("C11", "fetch-transparency", "%s mode: %s" % (mode, flog.bad), case)
                     return
-        if flog.bad:
-            res.violation("C11", "fetch-transparency", "%s mode: %s" % (mode, flog.bad), case)
+                rc = check_stats(sim, flog, cfg, res, case, mode)
+                if rc is None:
+                    return
+                if rc.hits and rc.evictions:
+                    nt = True
+            finals[ic is not None] = (real_regs(sim), sim.state.output, sim.state.exit_code, pipe.mem_image(sim), bool(sim.is_done()), faulted)
+        res.count("results_vs_uncached")
+        if finals[True] != finals[False]:
+            names = ["registers", "output", "exit code", "memory", "done", "faulted"]
+            res.violation("C11", "result-changed", "%s mode: with the I-cache on %s differ from the same run without I-cache" % (mode, [names[i] for i in range(6) if finals[True][i] != finals[False][i]]), case)
             return
-        rc = check_stats(sim, flog, cfg, res, case, mode)
-        if rc is None:
-            return
-        if rc.hits and rc.evictions:
-            nt = True
-        # results unchanged by the I-cache (vs. the sequential reference = uncached semantics)
-        if sr == "done" and not faulted:
-            res.count("results_vs_uncached")
-            if not (real_regs(sim) == seq.x and sim.state.output == seq.out and sim.state.exit_code == seq.exit and pipe.mem_image(sim) == seq.mem.nonzero() and sim.is_done()):
-                res.violation("C11", "result-changed", "%s mode with I-cache: registers/output/exit/memory differ from the uncached result" % mode, case)
-                return
     if nt:
         res.nontrivial(h64(case))
 
